@@ -7,6 +7,7 @@ package otr3
 // replaying them, to hash states exactly, and to look for retained secrets.
 
 import (
+	"sort"
 	"crypto/sha256"
 	"encoding/binary"
 	"fmt"
@@ -291,7 +292,25 @@ func (c *verifCanon) walk(v reflect.Value) {
 			c.tag('m')
 			return
 		}
-		panic("verif: hash of non-nil map " + t.String())
+		// order-independent: digest of every (key, value) entry on its own, sorted
+		c.tag('M')
+		c.u64(uint64(v.Len()))
+		var ds []string
+		it := v.MapRange()
+		for it.Next() {
+			sub := &verifCanon{h: sha256.New(), ptrs: map[uintptr]int{}}
+			k := reflect.New(t.Key()).Elem()
+			k.Set(it.Key())
+			sub.walk(k)
+			e := reflect.New(t.Elem()).Elem()
+			e.Set(it.Value())
+			sub.walk(e)
+			ds = append(ds, string(sub.h.Sum(nil)))
+		}
+		sort.Strings(ds)
+		for _, d := range ds {
+			c.h.Write([]byte(d))
+		}
 	default:
 		panic("verif: hash of unsupported kind " + t.String())
 	}
